@@ -56,6 +56,11 @@ CHECKS["C16"] = ("exploration",
          "4.C16", "generated grammars (seeded proptest choice streams) x validity + structural-equality oracle through an independent DOT reader",
          "graphviz is not installed: the DOT reader (written from the DOT grammar and graphviz's scanner rules) is trusted")
 
+CHECKS["C01"] = ("exploration",
+         "Generated grammars on C01's stated domain are compiled with the real binary, the script is sourced in real bash 5.2 and generated command lines (walks through the reference automaton, foreign and truncated words, every kind of typed prefix) x COMP_WORDBREAKS {default, empty} are completed; COMPREPLY must equal, as a set, the answer of a reference interpreter built on the harness's own semantics of the grammar (levels, literal priority, word-break stripping, nothing on a dead walk).",
+         "4.C01", "generated grammars x generated command lines (seeded proptest choice streams) x differential oracle: reference interpreter vs execution in bash",
+         "trusted: reference semantics + interpreter (model.rs, interp.rs), bash driver; bash queries run at ~20-30/s on this box whatever the parallelism, so quick = 150 grammars (~1400 completions), thorough = 4000 grammars; two known findings (word skipped before a command; truncated word accepted) are classified by signature and have witnesses")
+
 NOT_YET = {
 }
 
